@@ -502,6 +502,50 @@ def no_missing_return(ctx: Ctx, rule: str, modules: Iterable[str], what: str) ->
     return n
 
 
+def sibling_call_sites(ctx: Ctx, rule: str, callees: Iterable[str], what: str) -> int:
+    """Cross-check of the call sites of one function: when two sites hand the same two things (same expression text) to the
+    callee, they hand them to the same parameters.  (`inspect_call(.., function_body_hash, self._input_sig, ..)` in visit_Call and
+    `inspect_call(.., self._input_sig, function_body_hash, ..)` in visit_Name: one of them is wrong.)"""
+    from ..flow import bind_arg
+    rep = ctx.report
+    prog = ctx.prog
+    n = 0
+    for cq in callees:
+        callee = prog.funcs.get(cq)
+        if callee is None:
+            raise AnchorError(f"{cq} not found")
+        sites = []
+        for f in prog.funcs.values():
+            if f is callee:
+                continue
+            for c in f.own_nodes():
+                if isinstance(c, ast.Call):
+                    fs, _ = prog.callees(f, c, ctx._types)
+                    if callee in fs and len(fs) == 1:
+                        binding = {}
+                        for p_ in callee.positional_params():
+                            a = bind_arg(callee, c, p_)
+                            if len(a) == 1 and isinstance(a[0], (ast.Name, ast.Attribute)):
+                                binding[p_] = unparse(a[0])
+                        sites.append((f, c, binding))
+        for i, (f1, c1, b1) in enumerate(sites):
+            for (f2, c2, b2) in sites[i + 1:]:
+                n += 1
+                swaps = []
+                for p_ in b1:
+                    for q_ in b1:
+                        if p_ < q_ and p_ in b2 and q_ in b2 and b1[p_] != b1[q_] and b1[p_] == b2[q_] and b1[q_] == b2[p_]:
+                            swaps.append((p_, q_, b1[p_], b1[q_]))
+                desc = f"the call sites of {callee.name} at {f1.loc(c1)} and {f2.loc(c2)} give the same values to the same parameters"
+                if swaps:
+                    p_, q_, x, y = swaps[0]
+                    rep.bad(rule, f2.qname, desc, f2.loc(c2), [f"{f1.loc(c1)}: {p_}={x}, {q_}={y}", f"{f2.loc(c2)}: {p_}={y}, {q_}={x}", what], f"swap:{p_}:{q_}",
+                            what=f"two call sites of {callee.name} pass `{x}` and `{y}` in opposite order")
+                else:
+                    rep.ok(rule, f2.qname, desc, f2.loc(c2))
+    return n
+
+
 def kinds_not_confused(ctx: Ctx, rule: str, modules: Iterable[str], what: str) -> int:
     """The package gives each kind of name its own type (NewType / class): LocalDepPath (a name as written in a function),
     CanonicalPath (a resolved object), DDSPath (a store path), PyHash (a signature), ...  mypy reports no argument /
